@@ -2,16 +2,26 @@
 
 package config_test
 
-// C15 — the configuration Manager with all 14 sections registered: a full file loads iff every section present in it
-// loads on its own (absent sections take their defaults), what it saves is section by section what each section saves,
-// environment variables are applied to every section, the displayable form hides the secrets. The per-section
-// behaviour itself is checked against the Coq tables by the per-package harnesses; this one checks the composition.
+// C15 — the configuration Manager (config/config.go) with ANY SUBSET of the 14 sections registered.
+// The file always carries sections for registered and for unregistered components, for component names nobody
+// knows, and members under unknown top-level names; recognisable secrets are planted in all of them.
+// Observed: LoadJSON (or LoadJSONFromFile / Default) accept or reject; ToJSON (or SaveJSON) section by section
+// (equal to what the component saves on its own? equal to the raw input?), a reload of the saved file; ToDisplayJSON
+// (which sections it shows, every secret-named member in it, every planted secret searched in its bytes).
+// The Coq side (Model/C15_Check.v mcheck) runs the Manager model (Model/C15_Manager.v: mgr_load, mgr_save, mgr_display)
+// on the same file with components whose outcome on their own was observed here, compares, and evaluates the boolean
+// form of the property on the implementation's own output.
+// The per-section behaviour itself is checked against the Coq tables by the per-package harnesses.
 
 import (
 	"bytes"
+	"crypto/ed25519"
+	"encoding/base64"
 	"encoding/json"
 	"fmt"
+	mrand "math/rand"
 	"os"
+	"path/filepath"
 	"sort"
 	"strings"
 	"testing"
@@ -31,6 +41,9 @@ import (
 	"github.com/ipfs/ipfs-cluster/monitor/pubsubmon"
 	"github.com/ipfs/ipfs-cluster/observations"
 	"github.com/ipfs/ipfs-cluster/pintracker/stateless"
+
+	crypto "github.com/libp2p/go-libp2p-core/crypto"
+	peer "github.com/libp2p/go-libp2p-core/peer"
 )
 
 type vc15MSec struct {
@@ -44,10 +57,40 @@ type vc15MSec struct {
 	envs [][2]string // (variable suffix, value)
 }
 
+// planted secrets (every one is searched in the bytes of every displayable form)
+var (
+	vc15MSecretHex  = strings.Repeat("c15a", 16) // cluster secret, 32 bytes
+	vc15MSecretOld  = strings.Repeat("ab", 32)
+	vc15MClusterKey = "c15-planted-cluster-private-key"
+	vc15MPassword   = "c15-planted-pa55w0rd"
+	vc15MPassOld    = "mgr-s3cret-pa55"
+	vc15MRestKey    string // base64 of a real libp2p key (set in init)
+	vc15MRestID     string
+)
+
+func init() {
+	seed := make([]byte, ed25519.SeedSize)
+	mrand.New(mrand.NewSource(15)).Read(seed)
+	priv, _, err := crypto.GenerateEd25519Key(bytes.NewReader(seed))
+	if err != nil {
+		panic(err)
+	}
+	b, err := crypto.MarshalPrivateKey(priv)
+	if err != nil {
+		panic(err)
+	}
+	id, err := peer.IDFromPrivateKey(priv)
+	if err != nil {
+		panic(err)
+	}
+	vc15MRestKey = base64.StdEncoding.EncodeToString(b)
+	vc15MRestID = peer.Encode(id)
+}
+
 var vc15MSecs = []vc15MSec{
 	{"cluster", "", config.Cluster, func() config.ComponentConfig { return &ipfscluster.Config{} }, "CLUSTER",
 		[][2]interface{}{{"peername", "verif-peer"}, {"replication_factor_min", 2}, {"replication_factor_max", 3}, {"state_sync_interval", "0s"},
-			{"secret", strings.Repeat("ab", 32)}, {"listen_multiaddress", "bogus"}, {"mdns_interval", "0s"}, {"follower_mode", true}},
+			{"secret", vc15MSecretOld}, {"listen_multiaddress", "bogus"}, {"mdns_interval", "0s"}, {"follower_mode", true}},
 		[][2]string{{"PEERNAME", "env-peer"}, {"DIALPEERTIMEOUT", "7s"}, {"PINRECOVERINTERVAL", "-1s"}}},
 	{"raft", "consensus", config.Consensus, func() config.ComponentConfig { return &raft.Config{} }, "CLUSTER_RAFT",
 		[][2]interface{}{{"commit_retries", 3}, {"backups_rotate", -1}, {"datastore_namespace", "/mgr"}, {"heartbeat_timeout", "4ms"}, {"network_timeout", "3s"}},
@@ -56,7 +99,7 @@ var vc15MSecs = []vc15MSec{
 		[][2]interface{}{{"cluster_name", "verif"}, {"trusted_peers", []string{"*"}}, {"trusted_peers", []string{"bogus"}}, {"rebroadcast_interval", "-1s"}, {"peerset_metric", "disk"}},
 		[][2]string{{"CLUSTERNAME", "envname"}, {"BATCHING_MAXBATCHSIZE", "7"}}},
 	{"restapi", "api", config.API, func() config.ComponentConfig { return &rest.Config{} }, "CLUSTER_RESTAPI",
-		[][2]interface{}{{"max_header_bytes", 8192}, {"max_header_bytes", 100}, {"basic_auth_credentials", map[string]string{"admin": "mgr-s3cret-pa55"}}, {"idle_timeout", "1m"}, {"cors_max_age", "-1s"}},
+		[][2]interface{}{{"max_header_bytes", 8192}, {"max_header_bytes", 100}, {"basic_auth_credentials", map[string]string{"admin": vc15MPassOld}}, {"idle_timeout", "1m"}, {"cors_max_age", "-1s"}},
 		[][2]string{{"READTIMEOUT", "9s"}, {"MAXHEADERBYTES", "5"}}},
 	{"ipfsproxy", "api", config.API, func() config.ComponentConfig { return &ipfsproxy.Config{} }, "CLUSTER_IPFSPROXY",
 		[][2]interface{}{{"node_https", true}, {"max_header_bytes", 4095}, {"extract_headers_ttl", "0s"}, {"node_multiaddress", "bogus"}},
@@ -90,6 +133,15 @@ var vc15MSecs = []vc15MSec{
 		[][2]string{{"FOLDER", "envldb"}}},
 }
 
+// the groups of jsonConfig (config/config.go): anything else at top level is not kept by the Manager
+var vc15MGroups = []string{"consensus", "api", "ipfs_connector", "state", "pin_tracker", "monitor", "allocator", "informer", "observations", "datastore"}
+
+// sections for component names no Manager here knows (the first is a real component's name under another group)
+var vc15MExtras = [][2]string{
+	{"api", "raft"}, {"api", "grpcapi"}, {"consensus", "etcd"}, {"state", "mapstate"}, {"allocator", "balanced"},
+	{"datastore", "pebble"}, {"ipfs_connector", "kubo"}, {"extras", "thing"}, {"secrets", "vault"},
+}
+
 type vc15MSet struct {
 	Sec string      `json:"sec"`
 	Key string      `json:"key"`
@@ -105,12 +157,22 @@ type vc15MCase struct {
 	Null   []string   `json:"null"`   // sections bound to JSON null
 	Set    []vc15MSet `json:"set"`
 	Env    []vc15MEnv `json:"env"`
+	Unreg  []string   `json:"unreg,omitempty"` // components NOT registered in the Manager (their sections stay in the file)
+	Extra  []int      `json:"extra,omitempty"` // indices into vc15MExtras: sections for unknown component names
+	Junk   []string   `json:"junk,omitempty"`  // sections bound to a JSON value that is not an object
+	Plant  bool       `json:"plant,omitempty"` // plant the recognisable secrets in cluster and restapi
+	Libp2p bool       `json:"libp2p,omitempty"`
+	Mode   string     `json:"mode,omitempty"` // "" = LoadJSON(bytes); "file" = LoadJSONFromFile + SaveJSON; "default" = Default(); "raw" = Raw is the file
+	Raw    string     `json:"raw,omitempty"`
 }
 
-func vc15MNew() (*config.Manager, map[string]config.ComponentConfig) {
+func vc15MNewSub(unreg map[string]bool) (*config.Manager, map[string]config.ComponentConfig) {
 	m := config.NewManager()
 	cs := map[string]config.ComponentConfig{}
 	for _, s := range vc15MSecs {
+		if unreg[s.name] {
+			continue
+		}
 		c := s.mk()
 		cs[s.name] = c
 		m.RegisterComponent(s.typ, c)
@@ -136,6 +198,12 @@ func vc15MCanon(b []byte) string {
 	}
 	o, _ := json.Marshal(v)
 	return string(o)
+}
+
+var vc15MRawFiles = []string{
+	`null`, `[]`, `5`, `{`, ``, `"x"`, `{"api": 5}`, `{"cluster": {}, "consensus": []}`, `{"api": {"restapi": 5}}`, `{"cluster": 5}`,
+	`{"consensus": null}`, `{}`, `{"api": {"restapi": {"basic_auth_credentials": {"u": "c15-planted-pa55w0rd"}}}}`,
+	`{"cluster": "c15-planted-cluster-private-key"}`, `{"datastore": {"badger": []}, "informer": {"disk": "x"}}`,
 }
 
 func vc15MGen(r *vRand) vc15MCase {
@@ -166,7 +234,160 @@ func vc15MGen(r *vRand) vc15MCase {
 			c.Env = append(c.Env, vc15MEnv{s.name, x[0], x[1]})
 		}
 	}
+	// which components this Manager knows
+	if !r.chance(30) {
+		p := []int{8, 25, 50}[r.intn(3)]
+		for _, s := range vc15MSecs {
+			q := p
+			if s.name == "cluster" {
+				q = 6
+			}
+			if s.name == "restapi" && r.chance(30) {
+				q = 100
+			}
+			if r.chance(q) {
+				c.Unreg = append(c.Unreg, s.name)
+			}
+		}
+	}
+	c.Plant = r.chance(75)
+	c.Libp2p = r.chance(35)
+	ne := r.rng(0, 3)
+	for i := 0; i < ne; i++ {
+		c.Extra = append(c.Extra, r.intn(len(vc15MExtras)))
+	}
+	if r.chance(4) {
+		c.Junk = append(c.Junk, vc15MSecs[r.intn(len(vc15MSecs))].name)
+	}
+	switch x := r.intn(100); {
+	case x < 14:
+		c.Mode = "file"
+	case x < 22:
+		c.Mode = "default"
+	case x < 27:
+		c.Mode = "raw"
+		c.Raw = vc15MRawFiles[r.intn(len(vc15MRawFiles))]
+	}
 	return c
+}
+
+// the file as the Manager's jsonConfig sees it (a mirror of that unexported struct)
+type vc15MMirror struct {
+	Cluster      *json.RawMessage            `json:"cluster"`
+	Consensus    map[string]*json.RawMessage `json:"consensus"`
+	API          map[string]*json.RawMessage `json:"api"`
+	IPFSConn     map[string]*json.RawMessage `json:"ipfs_connector"`
+	State        map[string]*json.RawMessage `json:"state"`
+	PinTracker   map[string]*json.RawMessage `json:"pin_tracker"`
+	Monitor      map[string]*json.RawMessage `json:"monitor"`
+	Allocator    map[string]*json.RawMessage `json:"allocator"`
+	Informer     map[string]*json.RawMessage `json:"informer"`
+	Observations map[string]*json.RawMessage `json:"observations"`
+	Datastore    map[string]*json.RawMessage `json:"datastore"`
+}
+
+func (m *vc15MMirror) group(g string) map[string]*json.RawMessage {
+	switch g {
+	case "consensus":
+		return m.Consensus
+	case "api":
+		return m.API
+	case "ipfs_connector":
+		return m.IPFSConn
+	case "state":
+		return m.State
+	case "pin_tracker":
+		return m.PinTracker
+	case "monitor":
+		return m.Monitor
+	case "allocator":
+		return m.Allocator
+	case "informer":
+		return m.Informer
+	case "observations":
+		return m.Observations
+	case "datastore":
+		return m.Datastore
+	}
+	return nil
+}
+
+type vc15MKey struct{ group, name string }
+
+// every (group, name) -> raw of a file; top-level members that are objects are taken as groups (known or not);
+// ok=false when the bytes do not fit the Manager's jsonConfig
+func vc15MSections(b []byte) (secs map[vc15MKey]*json.RawMessage, ok bool) {
+	secs = map[vc15MKey]*json.RawMessage{}
+	var mir vc15MMirror
+	if err := json.Unmarshal(b, &mir); err != nil {
+		return secs, false
+	}
+	var top map[string]*json.RawMessage
+	if err := json.Unmarshal(b, &top); err != nil || top == nil {
+		return secs, true // `null`: an empty file
+	}
+	known := map[string]bool{}
+	for _, g := range vc15MGroups {
+		known[g] = true
+		for n, raw := range mir.group(g) {
+			secs[vc15MKey{g, n}] = raw
+		}
+	}
+	if raw, has := top["cluster"]; has {
+		secs[vc15MKey{"", "cluster"}] = raw
+	}
+	for g, raw := range top {
+		if known[g] || g == "cluster" || g == "source" || raw == nil {
+			continue
+		}
+		var sub map[string]*json.RawMessage
+		if json.Unmarshal(*raw, &sub) == nil {
+			for n, r2 := range sub {
+				secs[vc15MKey{g, n}] = r2
+			}
+		}
+	}
+	return secs, true
+}
+
+func vc15MStatus(raw *json.RawMessage, has bool) int {
+	if !has {
+		return 0
+	}
+	if raw == nil {
+		return 1
+	}
+	t := bytes.TrimSpace(*raw)
+	if len(t) > 0 && t[0] == '{' {
+		return 2
+	}
+	return 3
+}
+
+var vc15MSecretNames = map[string]bool{"secret": true, "private_key": true, "basic_auth_credentials": true}
+
+// every member named like a secret, at any depth: does it show the marker?
+func vc15MSecretMembers(v interface{}, out *[]bool) {
+	switch x := v.(type) {
+	case map[string]interface{}:
+		keys := make([]string, 0, len(x))
+		for k := range x {
+			keys = append(keys, k)
+		}
+		sort.Strings(keys)
+		for _, k := range keys {
+			if vc15MSecretNames[k] {
+				s, isStr := x[k].(string)
+				*out = append(*out, isStr && s == "XXX_hidden_XXX")
+			} else {
+				vc15MSecretMembers(x[k], out)
+			}
+		}
+	case []interface{}:
+		for _, e := range x {
+			vc15MSecretMembers(e, out)
+		}
+	}
 }
 
 func TestVerifC15Manager(t *testing.T) {
@@ -180,14 +401,16 @@ func TestVerifC15Manager(t *testing.T) {
 		}
 	}
 	os.Setenv("VERIF_IDBASE", fmt.Sprint(vEnvInt("VERIF_IDBASE", 0)+15*10000000))
-	out := newVOut("C15_manager", "From V Require Import Model.C15_Config Model.C15_Check.\nFrom Coq Require Import String List ZArith NArith.\nImport ListNotations.",
-		"mcase", "Definition R := Eval vm_compute in mfailing cases.\nOpen Scope N_scope.\nPrint R.")
+	out := newVOut("C15_manager", "From V Require Import Model.C15_Config Model.C15_Manager Model.C15_Check.\nFrom Coq Require Import String List ZArith NArith.\nImport ListNotations.\nOpen Scope N_scope.",
+		"mcase", "Definition R := Eval vm_compute in mfailing cases.\nPrint R.")
 	defer out.close()
 	// default documents of every section
 	defDocs := map[string]map[string]interface{}{}
 	byName := map[string]vc15MSec{}
-	for _, s := range vc15MSecs {
+	idOf := map[vc15MKey]int{}
+	for i, s := range vc15MSecs {
 		byName[s.name] = s
+		idOf[vc15MKey{s.group, s.name}] = i
 		c := s.mk()
 		if err := c.Default(); err != nil {
 			t.Fatal(err)
@@ -199,6 +422,10 @@ func TestVerifC15Manager(t *testing.T) {
 		var m map[string]interface{}
 		json.Unmarshal(b, &m)
 		defDocs[s.name] = m
+	}
+	knownGroup := map[string]bool{}
+	for _, g := range vc15MGroups {
+		knownGroup[g] = true
 	}
 	var cases []vc15MCase
 	if in := vCasesIn(); in != nil {
@@ -218,7 +445,7 @@ func TestVerifC15Manager(t *testing.T) {
 	}
 	nviol := map[string]int{}
 	defer vCaseDone()
-	for _, c := range cases {
+	for ci, c := range cases {
 		vCaseStart(c)
 		violation := func(sig, detail string) {
 			nviol[sig]++
@@ -228,56 +455,172 @@ func TestVerifC15Manager(t *testing.T) {
 			b, _ := json.Marshal(map[string]interface{}{"signature": sig, "detail": detail, "case": map[string]interface{}{"input": c}})
 			fmt.Printf("VERIF-DIRECT-VIOLATION %s\n", b)
 		}
-		absent := map[string]bool{}
-		for _, a := range c.Absent {
-			if a != "cluster" {
-				absent[a] = true
+		mode := c.Mode
+		if mode != "file" && mode != "default" && mode != "raw" {
+			mode = "load"
+		}
+		unreg := map[string]bool{}
+		for _, a := range c.Unreg {
+			if _, ok := byName[a]; ok {
+				unreg[a] = true
 			}
 		}
-		isNull := map[string]bool{}
-		for _, a := range c.Null {
-			if !absent[a] {
-				isNull[a] = true
+		// ---- the file ----
+		var raw []byte
+		if mode == "raw" {
+			raw = []byte(c.Raw)
+		} else if mode != "default" {
+			absent := map[string]bool{}
+			for _, a := range c.Absent {
+				if a != "cluster" {
+					absent[a] = true
+				}
 			}
+			isNull := map[string]bool{}
+			for _, a := range c.Null {
+				if !absent[a] {
+					isNull[a] = true
+				}
+			}
+			isJunk := map[string]bool{}
+			for _, a := range c.Junk {
+				isJunk[a] = true
+			}
+			docs := map[string]map[string]interface{}{}
+			for _, s := range vc15MSecs {
+				if absent[s.name] {
+					continue
+				}
+				b, _ := json.Marshal(defDocs[s.name])
+				var m map[string]interface{}
+				json.Unmarshal(b, &m)
+				docs[s.name] = m
+			}
+			if c.Plant {
+				if d, ok := docs["cluster"]; ok {
+					d["secret"] = vc15MSecretHex
+					d["private_key"] = vc15MClusterKey
+				}
+				if d, ok := docs["restapi"]; ok {
+					d["basic_auth_credentials"] = map[string]string{"admin": vc15MPassword}
+				}
+			}
+			if c.Libp2p {
+				if d, ok := docs["restapi"]; ok {
+					d["id"] = vc15MRestID
+					d["private_key"] = vc15MRestKey
+					d["libp2p_listen_multiaddress"] = []string{"/ip4/127.0.0.1/tcp/0"}
+				}
+			}
+			for _, st := range c.Set {
+				if d, ok := docs[st.Sec]; ok {
+					d[st.Key] = st.Val
+				}
+			}
+			file := map[string]interface{}{}
+			put := func(group, name string, v interface{}) {
+				if group == "" {
+					file[name] = v
+					return
+				}
+				g, _ := file[group].(map[string]interface{})
+				if g == nil {
+					g = map[string]interface{}{}
+					file[group] = g
+				}
+				g[name] = v
+			}
+			for _, s := range vc15MSecs {
+				d, ok := docs[s.name]
+				if !ok {
+					continue
+				}
+				var v interface{} = d
+				if isNull[s.name] {
+					v = nil
+				} else if isJunk[s.name] {
+					v = 5
+				}
+				put(s.group, s.name, v)
+			}
+			for _, ei := range c.Extra {
+				if ei < 0 || ei >= len(vc15MExtras) {
+					continue
+				}
+				e := vc15MExtras[ei]
+				put(e[0], e[1], map[string]interface{}{
+					"secret":                 fmt.Sprintf("c15-planted-secret-%d", ei),
+					"private_key":            fmt.Sprintf("c15-planted-key-%d", ei),
+					"basic_auth_credentials": map[string]string{"root": fmt.Sprintf("c15-planted-cred-%d", ei)},
+					"nested":                 map[string]interface{}{"private_key": fmt.Sprintf("c15-planted-nested-%d", ei)},
+					"listen":                 "/ip4/127.0.0.1/tcp/1",
+				})
+			}
+			raw, _ = json.Marshal(file)
 		}
-		// section documents
-		docs := map[string]map[string]interface{}{}
-		for _, s := range vc15MSecs {
-			if absent[s.name] {
+		// every planted secret that stands in the file
+		var planted []string
+		defSecret, _ := defDocs["cluster"]["secret"].(string) // the secret Default() drew for the default cluster document
+		for _, s := range []string{vc15MSecretHex, vc15MSecretOld, vc15MClusterKey, vc15MPassword, vc15MPassOld, vc15MRestKey, defSecret} {
+			if s == "" {
 				continue
 			}
-			b, _ := json.Marshal(defDocs[s.name])
-			var m map[string]interface{}
-			json.Unmarshal(b, &m)
-			docs[s.name] = m
-		}
-		for _, st := range c.Set {
-			if d, ok := docs[st.Sec]; ok {
-				d[st.Key] = st.Val
+			if bytes.Contains(raw, []byte(s)) {
+				planted = append(planted, s)
 			}
 		}
-		file := map[string]interface{}{}
-		for _, s := range vc15MSecs {
-			d, ok := docs[s.name]
-			if !ok {
-				continue
+		for ei := range vc15MExtras {
+			for _, p := range []string{"secret", "key", "cred", "nested"} {
+				s := fmt.Sprintf("c15-planted-%s-%d", p, ei)
+				if bytes.Contains(raw, []byte(`"`+s+`"`)) {
+					planted = append(planted, s)
+				}
 			}
-			var v interface{} = d
-			if isNull[s.name] {
-				v = nil
-			}
-			if s.group == "" {
-				file[s.name] = v
-				continue
-			}
-			g, _ := file[s.group].(map[string]interface{})
-			if g == nil {
-				g = map[string]interface{}{}
-				file[s.group] = g
-			}
-			g[s.name] = v
 		}
-		raw, _ := json.Marshal(file)
+		// the file as a map (group, name) -> raw
+		inSecs, wellFormed := map[vc15MKey]*json.RawMessage{}, true
+		if mode != "default" {
+			inSecs, wellFormed = vc15MSections(raw)
+		}
+		extraKeys := []vc15MKey{}
+		for k := range inSecs {
+			if _, real := idOf[k]; !real {
+				extraKeys = append(extraKeys, k)
+			}
+		}
+		sort.Slice(extraKeys, func(i, j int) bool {
+			return extraKeys[i].group+"/"+extraKeys[i].name < extraKeys[j].group+"/"+extraKeys[j].name
+		})
+		keyID := map[vc15MKey]int{}
+		for k, v := range idOf {
+			keyID[k] = v
+		}
+		nKnown, nUnknown := 0, 0
+		for _, k := range extraKeys {
+			if knownGroup[k.group] {
+				keyID[k] = 100 + nKnown
+				nKnown++
+			} else {
+				keyID[k] = 200 + nUnknown
+				nUnknown++
+			}
+		}
+		nOutKnown, nOutUnknown := 0, 0
+		idFor := func(k vc15MKey) int { // keys that turn up only in an output
+			if id, ok := keyID[k]; ok {
+				return id
+			}
+			var id int
+			if knownGroup[k.group] {
+				id = 150 + nOutKnown%40
+				nOutKnown++
+			} else {
+				id = 240 + nOutUnknown%10
+				nOutUnknown++
+			}
+			keyID[k] = id
+			return id
+		}
 		// environment
 		envSet := map[string]string{}
 		for _, e := range c.Env {
@@ -285,39 +628,52 @@ func TestVerifC15Manager(t *testing.T) {
 				envSet[s.env+"_"+e.Key] = e.Val
 			}
 		}
-		// expectation, section by section, from the sections on their own
+		dir := "."
+		if mode == "file" {
+			dir = fmt.Sprintf("c15m_%d", ci)
+			os.MkdirAll(dir, 0700)
+		}
+		// ---- every registered section on its own ----
 		type secRes struct {
-			present, ok bool
-			saved       string
+			status int
+			ok     bool
+			saved  string
 		}
 		res := map[string]*secRes{}
-		var names []string
 		for _, s := range vc15MSecs {
-			names = append(names, s.name)
-			sr := &secRes{present: !absent[s.name] && !isNull[s.name]}
+			rawSec, has := inSecs[vc15MKey{s.group, s.name}]
+			sr := &secRes{status: vc15MStatus(rawSec, has), ok: true}
 			res[s.name] = sr
+			if unreg[s.name] {
+				continue
+			}
 			cfg := s.mk()
+			cfg.SetBaseDir(dir)
 			var err error
 			var p string
 			switch {
-			case isNull[s.name] && s.name == "cluster":
-				// "cluster": null is treated like a missing cluster section: nothing is loaded, Validate decides
+			case mode == "default":
+				err = cfg.Default()
+				if err == nil {
+					err = cfg.Validate()
+				}
+			case sr.status <= 1 && s.name == "cluster":
+				// no cluster section (or null): nothing is loaded, the component stays as it was; Validate decides
 				err = cfg.Validate()
-			case absent[s.name] || isNull[s.name]:
+			case sr.status <= 1:
 				// a component that is missing, or bound to null, takes its defaults
 				err = cfg.Default()
 				if err == nil {
 					err = cfg.Validate()
 				}
 			default:
-				b, _ := json.Marshal(docs[s.name])
-				err, p = vc15MSafe(func() error { return cfg.LoadJSON(b) })
+				err, p = vc15MSafe(func() error { return cfg.LoadJSON([]byte(*rawSec)) })
 			}
 			if p != "" {
 				violation("config-panic", "section "+s.name+" alone: "+p)
 				err = fmt.Errorf("panic")
 			}
-			if err == nil && len(envSet) > 0 {
+			if err == nil && len(envSet) > 0 && mode != "default" {
 				for k, v := range envSet {
 					os.Setenv(k, v)
 				}
@@ -337,17 +693,33 @@ func TestVerifC15Manager(t *testing.T) {
 				}
 			}
 		}
-		// the manager
-		m, comps := vc15MNew()
-		err, p := vc15MSafe(func() error { return m.LoadJSON(raw) })
+		// ---- the manager ----
+		m, comps := vc15MNewSub(unreg)
+		var err error
+		var p string
+		switch mode {
+		case "default":
+			err, p = vc15MSafe(m.Default)
+			if err == nil && p == "" {
+				err, p = vc15MSafe(m.Validate)
+			}
+		case "file":
+			path := filepath.Join(dir, "service.json")
+			if e := os.WriteFile(path, raw, 0600); e != nil {
+				t.Fatal(e)
+			}
+			err, p = vc15MSafe(func() error { return m.LoadJSONFromFile(path) })
+		default:
+			err, p = vc15MSafe(func() error { return m.LoadJSON(raw) })
+		}
 		if p != "" {
-			violation("manager-panic", "Manager.LoadJSON: "+p)
+			violation("manager-panic", "Manager load ("+mode+"): "+p)
 			m.Shutdown()
 			continue
 		}
 		loadOK := err == nil
 		envOK := true
-		if loadOK && len(envSet) > 0 {
+		if loadOK && len(envSet) > 0 && mode != "default" {
 			for k, v := range envSet {
 				os.Setenv(k, v)
 			}
@@ -366,94 +738,230 @@ func TestVerifC15Manager(t *testing.T) {
 			}
 		}
 		mgrOK := loadOK && envOK
-		savedEq, leak := true, false
-		diff := ""
-		if mgrOK {
+		if mode == "default" && mgrOK {
+			// Default() draws a fresh cluster secret: what each component saves is read from the Manager's own components
 			for _, s := range vc15MSecs {
-				b, err := comps[s.name].ToJSON()
-				if err != nil || vc15MCanon(b) != res[s.name].saved {
-					savedEq = false
-					diff += " " + s.name
+				if !unreg[s.name] {
+					if b, err := comps[s.name].ToJSON(); err == nil {
+						res[s.name].saved = vc15MCanon(b)
+					}
 				}
 			}
-			// the saved file contains every section's saved form
+		}
+		reloadOK := true
+		validOK := true
+		diff := ""
+		if mgrOK {
+			// an accepted configuration passes validation
+			err, p = vc15MSafe(m.Validate)
+			if p != "" {
+				violation("manager-panic", "Manager.Validate: "+p)
+			}
+			validOK = err == nil && p == ""
+		}
+		type savedObs struct{ present, null, eqOwn, eqIn bool }
+		saved := map[int]savedObs{}
+		if mgrOK {
+			// the saved file
 			var fb []byte
-			err, p = vc15MSafe(func() error { var e error; fb, e = m.ToJSON(); return e })
+			if mode == "file" {
+				err, p = vc15MSafe(func() error { return m.SaveJSON("") })
+				if err == nil && p == "" {
+					fb, err = os.ReadFile(filepath.Join(dir, "service.json"))
+				}
+			} else {
+				err, p = vc15MSafe(func() error { var e error; fb, e = m.ToJSON(); return e })
+			}
 			if p != "" {
 				violation("manager-panic", "Manager.ToJSON: "+p)
-			} else if err != nil {
-				savedEq = false
+				m.Shutdown()
+				continue
+			}
+			if err != nil {
+				reloadOK = false
 				diff += " ToJSON:" + err.Error()
 			} else {
-				var top map[string]json.RawMessage
-				json.Unmarshal(fb, &top)
+				outSecs, okOut := vc15MSections(fb)
+				if !okOut {
+					reloadOK = false
+					diff += " ToJSON output is not a configuration file"
+				}
+				keys := map[vc15MKey]bool{}
+				for k := range inSecs {
+					keys[k] = true
+				}
+				for k := range outSecs {
+					keys[k] = true
+				}
 				for _, s := range vc15MSecs {
-					var rawSec json.RawMessage
-					if s.group == "" {
-						rawSec = top[s.name]
-					} else {
-						var g map[string]json.RawMessage
-						json.Unmarshal(top[s.group], &g)
-						rawSec = g[s.name]
+					keys[vc15MKey{s.group, s.name}] = true
+				}
+				for k := range keys {
+					o, has := outSecs[k]
+					so := savedObs{present: has, null: has && o == nil}
+					if has && o != nil {
+						cn := vc15MCanon(*o)
+						if i, real := idOf[k]; real && !unreg[vc15MSecs[i].name] {
+							so.eqOwn = cn == res[vc15MSecs[i].name].saved
+							if !so.eqOwn {
+								diff += " file:" + k.name
+							}
+						}
+						if in, hasIn := inSecs[k]; hasIn && in != nil {
+							so.eqIn = cn == vc15MCanon(*in)
+						}
 					}
-					if vc15MCanon(rawSec) != res[s.name].saved {
-						savedEq = false
-						diff += " file:" + s.name
+					saved[idFor(k)] = so
+				}
+				// the components still hold what they hold on their own
+				for _, s := range vc15MSecs {
+					if unreg[s.name] {
+						continue
+					}
+					b, err := comps[s.name].ToJSON()
+					if err != nil || vc15MCanon(b) != res[s.name].saved {
+						reloadOK = false
+						diff += " " + s.name
 					}
 				}
-				// and loads again into the same thing
-				m2, comps2 := vc15MNew()
-				if err := m2.LoadJSON(fb); err != nil {
-					savedEq = false
+				// and the saved file loads again into the same thing (same registered set)
+				m2, comps2 := vc15MNewSub(unreg)
+				if mode == "file" {
+					err, p = vc15MSafe(func() error { return m2.LoadJSONFromFile(filepath.Join(dir, "service.json")) })
+				} else {
+					err, p = vc15MSafe(func() error { return m2.LoadJSON(fb) })
+				}
+				if p != "" {
+					violation("manager-panic", "Manager.LoadJSON(saved file): "+p)
+					reloadOK = false
+				} else if err != nil {
+					reloadOK = false
 					diff += " reload:" + err.Error()
 				} else {
 					for _, s := range vc15MSecs {
+						if unreg[s.name] {
+							continue
+						}
 						b, _ := comps2[s.name].ToJSON()
 						if vc15MCanon(b) != res[s.name].saved {
-							savedEq = false
+							reloadOK = false
 							diff += " reload:" + s.name
 						}
 					}
 				}
 				m2.Shutdown()
 			}
-			db, err := m.ToDisplayJSON()
-			if err != nil {
-				savedEq = false
-				diff += " display:" + err.Error()
-			}
-			for _, secret := range []string{"mgr-s3cret-pa55", strings.Repeat("ab", 32)} {
-				if bytes.Contains(db, []byte(secret)) {
-					leak = true
-				}
-			}
+		}
+		// ---- the displayable form: always asked for, also after a refused load ----
+		var db []byte
+		err, p = vc15MSafe(func() error { var e error; db, e = m.ToDisplayJSON(); return e })
+		dispAvail := p == "" && err == nil
+		if p != "" && mgrOK {
+			violation("manager-panic", "Manager.ToDisplayJSON: "+p)
+		}
+		if err != nil && mgrOK {
+			reloadOK = false
+			diff += " display:" + err.Error()
+		}
+		var leaks []int
+		dispKeys := map[int][]bool{}
+		var leakNames []string
+		if dispAvail {
+			secrets := append([]string{}, planted...)
 			if cc, ok := comps["cluster"].(*ipfscluster.Config); ok && len(cc.Secret) > 0 {
-				if bytes.Contains(db, []byte(ipfscluster.EncodeProtectorKey(cc.Secret))) {
-					leak = true
+				secrets = append(secrets, ipfscluster.EncodeProtectorKey(cc.Secret))
+			}
+			for i, s := range secrets {
+				if bytes.Contains(db, []byte(s)) {
+					leaks = append(leaks, i)
+					leakNames = append(leakNames, s)
 				}
+			}
+			dSecs, okD := vc15MSections(db)
+			if !okD {
+				dispAvail = false
+			}
+			for k, rawD := range dSecs {
+				flags := []bool{}
+				if rawD != nil {
+					var v interface{}
+					if json.Unmarshal(*rawD, &v) == nil {
+						vc15MSecretMembers(v, &flags)
+					}
+				}
+				dispKeys[idFor(k)] = flags
 			}
 		}
 		m.Shutdown()
-		sort.Strings(names)
-		var items []string
-		for _, s := range vc15MSecs {
-			items = append(items, fmt.Sprintf("(%s, %s)", cqBool(res[s.name].present), cqBool(res[s.name].ok)))
+		if mode == "file" {
+			os.RemoveAll(dir)
 		}
-		term := fmt.Sprintf("([%s], %s, %s, %s)", strings.Join(items, "; "), cqBool(mgrOK), cqBool(savedEq), cqBool(leak))
+		// ---- the Coq term ----
+		var entries []string
+		for i, s := range vc15MSecs {
+			sr := res[s.name]
+			entries = append(entries, fmt.Sprintf("(%d, %s, %d, %s)", i, cqBool(!unreg[s.name]), sr.status, cqBool(sr.ok)))
+		}
+		for _, k := range extraKeys {
+			entries = append(entries, fmt.Sprintf("(%d, false, %d, true)", keyID[k], vc15MStatus(inSecs[k], true)))
+		}
+		var sids []int
+		for id := range saved {
+			sids = append(sids, id)
+		}
+		sort.Ints(sids)
+		var savedT []string
+		for _, id := range sids {
+			so := saved[id]
+			savedT = append(savedT, fmt.Sprintf("(%d, (%s, %s, %s, %s))", id, cqBool(so.present), cqBool(so.null), cqBool(so.eqOwn), cqBool(so.eqIn)))
+		}
+		dispT := "None"
+		if dispAvail {
+			var dids []int
+			for id := range dispKeys {
+				dids = append(dids, id)
+			}
+			sort.Ints(dids)
+			var ds []string
+			for _, id := range dids {
+				var fl []string
+				for _, b := range dispKeys[id] {
+					fl = append(fl, cqBool(b))
+				}
+				ds = append(ds, fmt.Sprintf("(%d, [%s])", id, strings.Join(fl, "; ")))
+			}
+			dispT = fmt.Sprintf("(Some [%s])", strings.Join(ds, "; "))
+		}
+		modeN := map[string]int{"load": 0, "default": 1, "file": 2, "raw": 0}[mode]
+		term := fmt.Sprintf("(%d, %s, [%s], %s, %s, [%s], %s, %s, %s)", modeN, cqBool(wellFormed), strings.Join(entries, "; "),
+			cqBool(mgrOK), cqBool(validOK), strings.Join(savedT, "; "), cqBool(reloadOK), dispT, cqListN(leaks))
+		out.count("manager:mode=" + mode)
 		if mgrOK {
 			out.count("manager:accepted")
 		} else {
 			out.count("manager:rejected")
 		}
-		out.add(term, c, map[string]interface{}{"manager_ok": mgrOK, "saved_equal": savedEq, "diff": diff, "leak": leak, "sections": vc15MResMap(names, func(n string) [2]bool { return [2]bool{res[n].present, res[n].ok} })}, len(c.Set)+len(c.Env)+len(c.Absent) > 0)
+		if len(unreg) > 0 {
+			out.count("manager:some-unregistered")
+			if mgrOK {
+				out.count("manager:some-unregistered:accepted")
+			}
+			if len(planted) > 0 {
+				out.count("manager:some-unregistered:secrets-in-file")
+			}
+		}
+		if len(extraKeys) > 0 {
+			out.count("manager:unknown-component-sections")
+		}
+		secMap := map[string]string{}
+		for _, s := range vc15MSecs {
+			secMap[s.name] = fmt.Sprintf("registered=%v status=%d ok=%v", !unreg[s.name], res[s.name].status, res[s.name].ok)
+		}
+		obs := map[string]interface{}{"manager_ok": mgrOK, "valid_ok": validOK, "reload_ok": reloadOK, "diff": diff, "leaked_secrets": leakNames,
+			"sections": secMap, "file": string(raw), "well_formed": wellFormed}
+		if len(leakNames) > 0 || os.Getenv("VERIF_CASES_IN") != "" {
+			obs["display"] = string(db)
+		}
+		out.add(term, c, obs, len(c.Set)+len(c.Env)+len(c.Absent)+len(c.Unreg)+len(c.Extra) > 0 || c.Raw != "")
 	}
-}
-
-func vc15MResMap(names []string, f func(string) [2]bool) map[string]string {
-	out := map[string]string{}
-	for _, n := range names {
-		x := f(n)
-		out[n] = fmt.Sprintf("present=%v ok=%v", x[0], x[1])
-	}
-	return out
 }
